@@ -18,8 +18,14 @@ ASSUMPTIONS = ['domain of the property: letters of the alphabet only, 1 <= k <= 
                'motif matrices have small integer entries, so float accumulation is exact and scores are compared as integers; '
                'the log/pseudo-count arithmetic of PWM.from_dict/from_counts is not part of the check',
                'count_kmers is observed where |A|^k <= 300 (its label list is built for every possible k-mer)']
-PARTIAL = ['C13_rolling_row_local_partial / C13_*_partial: the code at /repo HEAD (stop = -w+1) is proved row-local for w >= 2 only; '
-           'w = 1 is refuted (C13_window1_refuted) and covered by the theorems about the repaired slice (stop_fixed)']
+PARTIAL = ['C13_*_partial (rolling_row_local, get_kmers, get_minimizers, match_string, motif_scores, count_kmers, '
+           'model_agrees_implies_property): about the code at /repo HEAD (column slice stop = -w+1); they hold for window >= 2 '
+           '(minimizers: k >= 2). Window 1 is refuted for that code (C13_rolling_window1_refuted, C13_get_kmers_window1_refuted, '
+           'C13_get_minimizers_k1_refuted; known finding C13-window1-trim) and is covered by the un-suffixed theorems, which are '
+           'about the repaired slice (-w+1) or None of notes/C13.fix-1.diff',
+           'npstructures (ragged column slice, BitArray.pack/sliding_window) is modelled from its source, not verified; '
+           'C13_packed_eq_generic is about that register-level model, tied to the installed library by the correspondence only',
+           'motif scores are proved over exact integers; float rounding of real-valued matrices is outside the theorems']
 PER_FILE = 40
 
 ALPHS = [('dna', 'ACGT'), ('custom', 'ACGTN'), ('custom', 'ACTG'), ('amino', 'ACDEFGHIKLMNPQRSTVWY*'),
@@ -276,4 +282,12 @@ def finding(case, o):
 
 
 def signature(case, o):
-    return OPS[case['op']] + (':error:' + o['error'] if 'error' in o else '')
+    """one line per root cause: wrong row lengths (the trim / re-wrap) versus wrong values of one operation"""
+    op = OPS[case['op']]
+    if 'error' in o:
+        return 'error:' + o['error']
+    if op in ('kmers', 'minimizers', 'match', 'motif'):
+        want = [max(len(r) - case['w'] + 1, 0) for r in case['rows']]
+        if [len(r) for r in o['out']] != want:
+            return 'row-lengths'
+    return 'values:' + op
